@@ -70,3 +70,24 @@ CLAIMED['C02'] = dict(
   text='Held on every execution produced: tens of thousands of algebra cases, hundreds (quick) / thousands (thorough) of debounce runs, queue histories and server runs with send errors, cancels, EOFs, blocked sends and late joiners; at logical quiescence every live client had been handed every tag accepted after it registered, forced-ness preserved, snapshots non-decreasing and final == global, no dead connection left in the queue or the client list. Seven seeded mutants (forced dropped, parked request overwritten, MarkDone not re-queueing, doneFunc skipped on closed stream, debounce dropping earlier events, Merge instead of CopyMerge, stale snapshot kept) are caught.',
   note='Trusted: tag accounting through ReasonStats counts, the ProxyNeedsPush observation point, porcupine, the bounded-progress restatement of "eventually" (violation only with logical evidence of a stuck entry, otherwise inconclusive). Duplicated deliveries are counted, not judged. PILOT_PUSH_THROTTLE=3 in children so that a leaked push slot shows.',
 )
+
+_XC_NOTE = 'Trusted: the Envoy client models (internal/envoyclient), the process-wide logical quiescence detector (internal/idle) together with accepted==committed and empty push queue, proto.Equal comparison with EDS endpoints/localities as sets, the triage that excludes resources a server regenerates differently without any change. Histories go through the config store only (12 Istio kinds, every object passes the real validator); k8s Service/EndpointSlice/Pod ingestion, ztunnel/waypoint clients, ECDS/NDS/SDS and multi-cluster are not driven. One timing-dependent known finding (service key dropped by the per-proxy dependency filter) is keyed by root cause.'
+
+CLAIMED['C01'] = dict(
+  category='exploration',
+  technique='runtime monitoring / differential oracle: long-lived SotW and delta Envoy client models follow PRNG histories applied through the real config store to a FakeDiscoveryServer (real debouncer, push queue, per-proxy filtering, per-type skip tables); at logical quiescence their state is compared with fresh clients of a second control plane built from the final state; mismatches are triaged by forced pushes and a second fresh server; push requests are logged before/after the per-proxy dependency filter for root-cause keys',
+  text='Held (up to the listed known finding) at every checkpoint of every history executed: dozens (quick) to hundreds (thorough) of histories of 12-60 ops in PRNG batches, 8 long-lived clients (3 sidecars, 1 router; SotW and delta), thousands of resources compared; every checkpoint had generator calls that skipped or narrowed a push. Two delta-CDS defects found here were fixed.',
+  note=_XC_NOTE,
+)
+CLAIMED['C03'] = dict(
+  category='exploration',
+  technique='runtime monitoring / differential oracle: for each proxy a delta client and a SotW client with identical node metadata follow the same PRNG history on one real server; after every batch, at logical quiescence, their held CDS/EDS/LDS/RDS sets are compared; the delta client checks every response for protocol sanity',
+  text='Held (up to the listed known finding) after every batch of every history executed; histories with delta removals and subscription changes are counted as non-trivial. Two genuine delta-CDS defects (subset clusters not removed; one cluster per removed port kept) were found and fixed.',
+  note=_XC_NOTE,
+)
+CLAIMED['C05'] = dict(
+  category='fault_enumeration',
+  technique='runtime monitoring with enumerated stream faults: per history, cut points (after the n-th response of the initial sync n=1..8 with/without ACK, send failure on the n-th send n=1..6, every batch boundary; cancel and EOF) x {same server, restarted server built from current state} x {SotW, delta} x {retained nonce presented or not}; changes are applied while the client is away; after reconnect with retained versions/names the fresh-control-plane oracle of C01 decides',
+  text='Held on every scenario executed: ~30 + (number of batches) scenarios per history, hundreds (quick) to thousands (thorough) of scenarios of which about half missed changes while disconnected; control-plane restarts in half of the histories with all clients reconnecting with retained state; re-opened types answered is implied by equality with the fresh state for every referenced name.',
+  note=_XC_NOTE,
+)
